@@ -34,6 +34,26 @@ import GlmVerif.Props.C01.T_uop_shl
 import GlmVerif.Props.C01.T_uop_shr
 import GlmVerif.Props.C01.T_iop_neg
 import GlmVerif.Props.C01.T_iop_not
+import GlmVerif.Props.C01.T_iop_mod
+import GlmVerif.Props.C01.T_iasg_add
+import GlmVerif.Props.C01.T_iasg_sub
+import GlmVerif.Props.C01.T_iasg_mul
+import GlmVerif.Props.C01.T_iasg_and
+import GlmVerif.Props.C01.T_iasg_or
+import GlmVerif.Props.C01.T_iasg_xor
+import GlmVerif.Props.C01.T_iasg_shl
+import GlmVerif.Props.C01.T_iasg_shr
+import GlmVerif.Props.C01.T_iasg_mod
+import GlmVerif.Props.C01.T_uop_mod
+import GlmVerif.Props.C01.T_uasg_add
+import GlmVerif.Props.C01.T_uasg_sub
+import GlmVerif.Props.C01.T_uasg_mul
+import GlmVerif.Props.C01.T_uasg_and
+import GlmVerif.Props.C01.T_uasg_or
+import GlmVerif.Props.C01.T_uasg_xor
+import GlmVerif.Props.C01.T_uasg_shl
+import GlmVerif.Props.C01.T_uasg_shr
+import GlmVerif.Props.C01.T_uasg_mod
 /-! every family table of C01 holds for the model generated from the current /repo -/
 namespace Glm.Props.C01
 open Glm Glm.Spec.C01 Glm.Gen.C01
@@ -73,5 +93,25 @@ theorem all_ok : ∀ f ∈ families, f.ok lookup = true := by
     (Family.ok_congr f_uop_shl (fun ks => by rw [show f_uop_shl.unit = "uop_shl" from rfl, lookup_uop_shl])).trans uop_shl_ok,
     (Family.ok_congr f_uop_shr (fun ks => by rw [show f_uop_shr.unit = "uop_shr" from rfl, lookup_uop_shr])).trans uop_shr_ok,
     (Family.ok_congr f_iop_neg (fun ks => by rw [show f_iop_neg.unit = "iop_neg" from rfl, lookup_iop_neg])).trans iop_neg_ok,
-    (Family.ok_congr f_iop_not (fun ks => by rw [show f_iop_not.unit = "iop_not" from rfl, lookup_iop_not])).trans iop_not_ok⟩
+    (Family.ok_congr f_iop_not (fun ks => by rw [show f_iop_not.unit = "iop_not" from rfl, lookup_iop_not])).trans iop_not_ok,
+    (Family.ok_congr f_iop_mod (fun ks => by rw [show f_iop_mod.unit = "iop_mod" from rfl, lookup_iop_mod])).trans iop_mod_ok,
+    (Family.ok_congr f_iasg_add (fun ks => by rw [show f_iasg_add.unit = "iasg_add" from rfl, lookup_iasg_add])).trans iasg_add_ok,
+    (Family.ok_congr f_iasg_sub (fun ks => by rw [show f_iasg_sub.unit = "iasg_sub" from rfl, lookup_iasg_sub])).trans iasg_sub_ok,
+    (Family.ok_congr f_iasg_mul (fun ks => by rw [show f_iasg_mul.unit = "iasg_mul" from rfl, lookup_iasg_mul])).trans iasg_mul_ok,
+    (Family.ok_congr f_iasg_and (fun ks => by rw [show f_iasg_and.unit = "iasg_and" from rfl, lookup_iasg_and])).trans iasg_and_ok,
+    (Family.ok_congr f_iasg_or (fun ks => by rw [show f_iasg_or.unit = "iasg_or" from rfl, lookup_iasg_or])).trans iasg_or_ok,
+    (Family.ok_congr f_iasg_xor (fun ks => by rw [show f_iasg_xor.unit = "iasg_xor" from rfl, lookup_iasg_xor])).trans iasg_xor_ok,
+    (Family.ok_congr f_iasg_shl (fun ks => by rw [show f_iasg_shl.unit = "iasg_shl" from rfl, lookup_iasg_shl])).trans iasg_shl_ok,
+    (Family.ok_congr f_iasg_shr (fun ks => by rw [show f_iasg_shr.unit = "iasg_shr" from rfl, lookup_iasg_shr])).trans iasg_shr_ok,
+    (Family.ok_congr f_iasg_mod (fun ks => by rw [show f_iasg_mod.unit = "iasg_mod" from rfl, lookup_iasg_mod])).trans iasg_mod_ok,
+    (Family.ok_congr f_uop_mod (fun ks => by rw [show f_uop_mod.unit = "uop_mod" from rfl, lookup_uop_mod])).trans uop_mod_ok,
+    (Family.ok_congr f_uasg_add (fun ks => by rw [show f_uasg_add.unit = "uasg_add" from rfl, lookup_uasg_add])).trans uasg_add_ok,
+    (Family.ok_congr f_uasg_sub (fun ks => by rw [show f_uasg_sub.unit = "uasg_sub" from rfl, lookup_uasg_sub])).trans uasg_sub_ok,
+    (Family.ok_congr f_uasg_mul (fun ks => by rw [show f_uasg_mul.unit = "uasg_mul" from rfl, lookup_uasg_mul])).trans uasg_mul_ok,
+    (Family.ok_congr f_uasg_and (fun ks => by rw [show f_uasg_and.unit = "uasg_and" from rfl, lookup_uasg_and])).trans uasg_and_ok,
+    (Family.ok_congr f_uasg_or (fun ks => by rw [show f_uasg_or.unit = "uasg_or" from rfl, lookup_uasg_or])).trans uasg_or_ok,
+    (Family.ok_congr f_uasg_xor (fun ks => by rw [show f_uasg_xor.unit = "uasg_xor" from rfl, lookup_uasg_xor])).trans uasg_xor_ok,
+    (Family.ok_congr f_uasg_shl (fun ks => by rw [show f_uasg_shl.unit = "uasg_shl" from rfl, lookup_uasg_shl])).trans uasg_shl_ok,
+    (Family.ok_congr f_uasg_shr (fun ks => by rw [show f_uasg_shr.unit = "uasg_shr" from rfl, lookup_uasg_shr])).trans uasg_shr_ok,
+    (Family.ok_congr f_uasg_mod (fun ks => by rw [show f_uasg_mod.unit = "uasg_mod" from rfl, lookup_uasg_mod])).trans uasg_mod_ok⟩
 end Glm.Props.C01
